@@ -7,6 +7,10 @@ BASELINE_OFF = ("cd /repo && cargo nextest run --workspace --no-fail-fast --test
 
 # id -> (level, technique, design_ref, text, note)
 CHECKS = {
+ "C04": ("exploration", "bounded exhaustive enumeration (deviation bound 2, thorough 3) over a request grammar around valid base requests x service configurations, and the full product of error renderings, on the real S3Service::call / S3Error::to_http_response",
+         "DESIGN §4 C04",
+         "Every combination of at most k deviations (out of ~300 single deviations of method, path, query, each interpreted header, body incl. I/O errors, HTTP version) from 13 valid base requests under 16 service configurations is executed (7.4 million executions at k=2); panics are caught, hangs detected under the virtual clock, and every error response is parsed with an independent XML tokenizer and its status compared with data/s3_error_codes.json. Every code of that table is also rendered with every message / request id / override / header-map combination through both rendering paths.",
+         "byte strings outside the grammar are not covered (this is enumeration, not fuzzing); transport failures after an injected body I/O error are not judged"),
  "C12": ("exploration", "exhaustive enumeration of all short bucket names over a reduced alphabet and of key x host x host-parser products, on the real S3Service::call and constructors",
          "DESIGN §4 C12",
          "All strings of length 0..6 (thorough 7) over {a,A,1,.,-,_} plus boundary and reserved shapes, in both addressing styles, judged by a sandwich between the core and the complete published naming rules; 35 keys (every character class the statement names, 1023/1024/1025 bytes) x 6 host-parser configurations x base-domain / bucket.domain / IPv4 / IPv6 socket hosts with the backend's (bucket,key) compared to the client's; all ordered selections of <=3 of 11 domains for the constructors.",
